@@ -33,6 +33,9 @@ struct View {
     from_listen: bool,
     t_open_us: i64,
     t_timewait_us: i64,
+    /// instant of the last segment that arrived while the socket was in TIME-WAIT (the only
+    /// thing that may restart the 2MSL timer)
+    t_last_seg_in_timewait_us: i64,
     timeout_us: Option<i64>,
     /// close() was called in SYN-RECEIVED, i.e. while the own SYN was still unacknowledged
     closed_before_syn_acked: bool,
@@ -556,6 +559,28 @@ fn run_case(src: &mut Src, ctx: &mut Ctx, deep: bool) -> Result<(), Fail> {
             Ev::Time(d) => bed.advance(*d),
         }
         let after = bed.sock().state();
+        // "TIME-WAIT ends by itself after 10 s": only an arriving segment can restart the timer,
+        // so an egress pass 10 s or more after the later of (entry into TIME-WAIT, last segment
+        // received in TIME-WAIT) must find the timer expired and close the socket
+        if before == State::TimeWait {
+            if let Ev::Seg(_) = &ev {
+                v.t_last_seg_in_timewait_us = bed.now_us;
+            }
+            // (a pass that still had something to send - the ACK of the peer's FIN - closes on
+            // the next pass, which follows at once inside Interface::poll: only a pass with
+            // nothing to send is judged)
+            if matches!(ev, Ev::Egress) && after == State::TimeWait && emitted.is_empty() {
+                let since = v.t_timewait_us.max(v.t_last_seg_in_timewait_us);
+                if bed.now_us - since >= 10_000_000 {
+                    ctx.report(Fail::new(
+                        "time-wait-does-not-end",
+                        format!("still in TIME-WAIT after an egress pass with nothing to send {} us after it was entered / last refreshed by a segment (10 s are over)", bed.now_us - since),
+                    ))?;
+                    ctx.label("ended-at-known-finding");
+                    return Ok(());
+                }
+            }
+        }
         // the peer's ISN is the sequence number of the SYN that was accepted
         if let Ev::Seg(s) = &ev {
             if s.has(SYN) && matches!((before, after), (State::Listen, State::SynReceived) | (State::SynSent, State::Established) | (State::SynSent, State::SynReceived)) {
